@@ -161,3 +161,19 @@ reg("C05", "exploration", "E1",
     "missing, stray value, combiner not split, combine without split) in task / node contexts must raise before any job ran "
     "(empty execution log, no job directory).",
     "Error types are not compared; the implicit wrapper workflow directory is not a job.")
+
+reg("C26", "exploration", "E1",
+    "bounded exhaustive enumeration of output path templates x inputs x flags, each evaluated by two real runs",
+    "7 templates x (files with 0-2 extensions in foreign directories, plain strings incl. 'x/y', '.', '..') x b values x "
+    "keep_extension x {template, explicit Path} (thorough adds more names/values and copy_mode=copy); each case is two real "
+    "debug-worker runs in fresh cache roots with the command played by a recorder: the resolved path must lie strictly inside the "
+    "job directory (or the name be refused), equal the collected output, be identical across the two evaluations (relative path), "
+    "follow the declared extension rule, and an explicit Path must be used as given.",
+    "Extension handling is not judged for strings, dot-files or templates with their own extension; any depth inside the job directory counts as inside.")
+reg("C27", "exploration", "E1",
+    "bounded exhaustive enumeration of file-input tasks x directories x roots x runtimes at the execute seam against a reference command line",
+    "19 field definitions (File / list[File] / MultiInputObj[File] x argstr x sep) x placements over {plain, nested, 'my dir'} x "
+    "copy_mode, plus two-field tasks, x {docker, singularity} x roots {/mnt/pydra, /r/} x xargs: the recorded command must be "
+    "[runtime, verb, xargs, binds|workdir, image, tail] with tail = native argv with every host path p replaced by <root>p, one "
+    "single-argument ro bind per parent directory, the cache root rw, workdir = <root><job dir>.",
+    "No container runtime is installed: everything is judged at the environments.base.execute seam; flag spellings -v/--volume, -w/--workdir, -B/--bind, --pwd accepted.")
